@@ -560,7 +560,10 @@ def check_mirror(prog: Program, res: Result) -> None:
              "(1<->2, mapping<->inverted_mapping, u<->v)")
     for fname in ("_update_state", "_revert_state", "_graph_feasibility",
                   "_sanity_check_and_init"):
-        fi = prog.fn(f"{MOD}:{fname}")
+        fi0 = prog.fn(f"{MOD}:{fname}")
+        from .core import unroll_literal_loops
+        fi = FuncInfo(fi0.qual, fi0.module, unroll_literal_loops(fi0.node),
+                      fi0.cls)
         leaves = leaf_texts(fi, skip_subgraph=True)
         texts = [t for t, _ in leaves]
         bag = {}
@@ -958,7 +961,8 @@ def check_feasibility(prog: Program, res: Result) -> None:
         else:
             res.bad("R-STEREO-FEAS", inst, f.loc(), f"{f.short}: {msg}",
                     instance=inst)
-    req(f"params.g1_stereo[{u}]" in txt and f"params.g2_stereo[{v}]" in txt,
+    req(re.search(rf"g1_stereo(\[|\.get\(){u}\b", txt) is not None
+        and re.search(rf"g2_stereo(\[|\.get\(){v}\b", txt) is not None,
         "descriptors of u and of v",
         "does not read params.g1_stereo[u] and params.g2_stereo[v]")
     req("len(s2) != len(s1)" in txt or "len(s1) != len(s2)" in txt,
@@ -975,8 +979,9 @@ def check_feasibility(prog: Program, res: Result) -> None:
     fi2 = prog.fn(f"{MOD}:_stereo_change_feasibility")
     txt2 = ast.unparse(fi2.node)
     u2, v2 = fi2.params()[:2]
-    req(f"params.g1_stereo_changes[{u2}]" in txt2
-        and f"params.g2_stereo_changes[{v2}]" in txt2,
+    req(re.search(rf"g1_stereo_changes(\[|\.get\(){u2}\b", txt2) is not None
+        and re.search(rf"g2_stereo_changes(\[|\.get\(){v2}\b", txt2)
+        is not None,
         "changes of u and of v",
         "does not read params.g1_stereo_changes[u] and "
         "params.g2_stereo_changes[v]", fi2)
@@ -1098,3 +1103,264 @@ def check_label_type(prog: Program, res: Result) -> None:
                             "is indexed by position, not by atom id)",
                             instance=inst)
     res.need("R-LABEL-TYPE", n, 5, "call sites of vf2pp_all_isomorphisms")
+
+
+# ---------------------------------------------------------------------------
+def check_prechecks(prog: Program, res: Result) -> None:
+    res.rule("R-PRECHECK", "the full-graph pre-checks of "
+             "_sanity_check_and_init reject a pair only on invariants of the "
+             "matching problem as posed by the caller: number of atoms, "
+             "degree sequence, and the multiset of the (caller supplied or "
+             "default) LABELS; a rejection based on anything else (elements, "
+             "attributes) loses valid bijections for caller-supplied labels")
+    fi = prog.fn(f"{MOD}:_sanity_check_and_init")
+    allowed = {"g1_nbrhd", "g2_nbrhd", "g1_labels_counter",
+               "g2_labels_counter", "subgraph", "len", "sorted", "Counter",
+               "n", "nbr", "g1_degree", "g2_degree", "g1_labels", "g2_labels"}
+    n = 0
+    for r in ast.walk(fi.node):
+        if not (isinstance(r, ast.Return) and norm(r.value) == "None"):
+            continue
+        guards = [a for a in ancestors(r) if isinstance(a, ast.If)]
+        tests = [g.test for g in guards]
+        if any("subgraph" in norm(t) and not norm(t).startswith("not subgraph")
+               for t in tests):
+            # subgraph-mode rejections are out of scope
+            continue
+        n += 1
+        used = set()
+        for t in tests:
+            used |= {x.id for x in ast.walk(t) if isinstance(x, ast.Name)}
+        extra = used - allowed
+        inst = f"{fi.short}: reject when `{norm(tests[0], 80) if tests else 0}`"
+        if extra:
+            res.bad("R-PRECHECK", inst, fi.loc(r),
+                    f"{fi.short}: the pair is rejected on "
+                    f"`{norm(tests[0], 100)}`, which depends on "
+                    f"{sorted(extra)} rather than on sizes, degrees or the "
+                    "labels the caller asked to match on")
+        else:
+            res.ok("R-PRECHECK", inst, fi.loc(r))
+    res.need("R-PRECHECK", n, 3, "full-graph rejections")
+    # and each must compare the two graphs (not reject on one side alone)
+    for r in ast.walk(fi.node):
+        if isinstance(r, ast.Return) and norm(r.value) == "None":
+            guards = [a for a in ancestors(r) if isinstance(a, ast.If)]
+            if not guards or any("subgraph" in norm(g.test) and not norm(
+                    g.test).startswith("not subgraph") for g in guards):
+                continue
+            t = norm(guards[0].test if len(guards) == 1 else guards[0].test)
+            last = norm([g for g in guards][0].test)
+            sides = {name_side(w) for w in re.findall(
+                r"[A-Za-z_][A-Za-z_0-9]*", last)} - {None}
+            inst = f"{fi.short}: `{last[:70]}` compares both graphs"
+            if sides == {1, 2} or "subgraph" in last:
+                res.ok("R-PRECHECK", inst, fi.loc(r))
+            else:
+                res.bad("R-PRECHECK", inst, fi.loc(r),
+                        f"{fi.short}: rejection `{last[:100]}` looks at one "
+                        "graph only")
+
+
+def check_both_sides(prog: Program, res: Result) -> None:
+    res.rule("R-FEAS-BOTH-SIDES", "a feasibility predicate accepts a pair "
+             "(returns True before its last statement) only under a test "
+             "that depends on the descriptors / roles of BOTH u and v; an "
+             "early acceptance that looks at one side only is asymmetric "
+             "(iso(g1, g2) non-empty while iso(g2, g1) is empty)")
+    from .core import DefUse
+    table = {"_stereo_feasibility": ("g1_stereo", "g2_stereo"),
+             "_stereo_change_feasibility": ("g1_stereo_changes",
+                                            "g2_stereo_changes"),
+             "_bond_change_feasibility": ("g1_bond_changes",
+                                          "g2_bond_changes")}
+    for fname, (t1, t2) in table.items():
+        if not prog.has_fn(f"{MOD}:{fname}"):
+            continue
+        fi = prog.fn(f"{MOD}:{fname}")
+        du = DefUse(fi.node)
+        rets = [r for r in ast.walk(fi.node) if isinstance(r, ast.Return)]
+        last_stmt = fi.node.body[-1]
+        n = 0
+        for r in rets:
+            v = norm(r.value)
+            if v == "False":
+                continue
+            n += 1
+            guards = [a.test for a in ancestors(r) if isinstance(a, ast.If)]
+            exprs = guards + ([r.value] if v != "True" else [])
+            attrs: set[str] = set()
+            for e in exprs:
+                for d in du.dep_nodes(e):
+                    attrs |= {x.attr for x in ast.walk(d)
+                              if isinstance(x, ast.Attribute)}
+                    attrs |= {x.id for x in ast.walk(d)
+                              if isinstance(x, ast.Name)}
+            inst = f"{fi.short}: `{norm(r)}` under {[norm(g, 40) for g in guards]}"
+            if r is last_stmt and not guards:
+                # unconditional acceptance at the very end: fine when every
+                # mismatch has returned False before (checked elsewhere)
+                falses = [x for x in rets if norm(x.value) == "False"]
+                if falses:
+                    res.ok("R-FEAS-BOTH-SIDES", inst, fi.loc(r))
+                else:
+                    res.bad("R-FEAS-BOTH-SIDES", inst, fi.loc(r),
+                            f"{fi.short} accepts every pair")
+                continue
+            if t1 in attrs and t2 in attrs:
+                res.ok("R-FEAS-BOTH-SIDES", inst, fi.loc(r))
+            else:
+                seen = [t for t in (t1, t2) if t in attrs]
+                res.bad("R-FEAS-BOTH-SIDES",
+                        f"{fi.short}: {norm(r)} under "
+                        f"{[norm(g, 60) for g in guards]}", fi.loc(r),
+                        f"{fi.short}: accepts the pair under "
+                        f"`{' and '.join(norm(g, 60) for g in guards) or 'no test'}`"
+                        f", which looks only at {seen or 'neither table'}: "
+                        "the descriptors of the other atom are never "
+                        "compared on this path", instance=inst)
+        res.need("R-FEAS-BOTH-SIDES", n, 1, f"accepting returns in {fname}")
+
+
+# ---------------------------------------------------------------------------
+def check_revert(prog: Program, res: Result) -> None:
+    res.rule("R-REVERT-SHAPE", "when the last pair is undone, an uncovered "
+             "neighbour of the removed atom leaves the frontier only if it "
+             "has NO other covered neighbour (test over nbrhd[neighbour] "
+             "against the mapping of its own side); the removed atom itself "
+             "stays in the frontier iff it has a covered neighbour, otherwise "
+             "it becomes external")
+    from .core import unroll_literal_loops
+    fi0 = prog.fn(f"{MOD}:_revert_state")
+    fn = unroll_literal_loops(fi0.node)
+    fi = FuncInfo(fi0.qual, fi0.module, fn, fi0.cls)
+    sides = 0
+    for loop in ast.walk(fn):
+        if not isinstance(loop, ast.For):
+            continue
+        m = re.fullmatch(r"g([12])_nbrhd\[last_atom([12])\]", norm(loop.iter))
+        if not m or m.group(1) != m.group(2):
+            continue
+        s_ = m.group(1)
+        sides += 1
+        nb = norm(loop.target)
+        covered = "mapping" if s_ == "1" else "inverted_mapping"
+        discards = [c for c in ast.walk(loop) if isinstance(c, ast.Call)
+                    and norm(c.func) == f"frontier{s_}.discard"
+                    and c.args and norm(c.args[0]) == nb]
+        inst = f"_revert_state side {s_}: neighbour leaves frontier{s_} only without other covered neighbour"
+        if not discards:
+            res.bad("R-REVERT-SHAPE", f"_revert_state side {s_}: no discard",
+                    fi.loc(loop), f"{inst}: frontier{s_}.discard({nb}) not "
+                    "found", instance=inst)
+            continue
+        for d in discards:
+            guarded = False
+            want = re.compile(
+                rf"any\(\(?\w+ in {covered} for \w+ in g{s_}_nbrhd\[{nb}\]\)?\)")
+            # (a) enclosing `if not any(...)`
+            for a in ancestors(d):
+                if a is loop:
+                    break
+                if isinstance(a, ast.If) and want.search(norm(a.test)) and \
+                        norm(a.test).startswith("not "):
+                    guarded = True
+            # (b) an earlier sibling `if any(...): continue`
+            stmt = d
+            while parent(stmt) is not None and not isinstance(
+                    parent(stmt), (ast.If, ast.For)):
+                stmt = parent(stmt)
+            block = None
+            par = parent(stmt)
+            for fld in ("body", "orelse"):
+                if stmt in getattr(par, fld, []):
+                    block = getattr(par, fld)
+            if block:
+                for prev in block[: block.index(stmt)]:
+                    if isinstance(prev, ast.If) and want.search(
+                            norm(prev.test)) and not norm(
+                            prev.test).startswith("not ") and any(
+                            isinstance(b, ast.Continue) for b in prev.body):
+                        guarded = True
+            if guarded:
+                res.ok("R-REVERT-SHAPE", inst, fi.loc(d))
+            else:
+                res.bad("R-REVERT-SHAPE",
+                        f"_revert_state side {s_}: unguarded discard",
+                        fi.loc(d), f"{inst}: `{norm(d)}` is not guarded by "
+                        f"`any(n in {covered} for n in g{s_}_nbrhd[{nb}])`: a "
+                        "neighbour that is still adjacent to another mapped "
+                        "atom is moved to the external set, and "
+                        "_graph_feasibility then rejects the true pairing "
+                        "(graphs with three-membered rings compare unequal "
+                        "to their own renamings)", instance=inst)
+        # the removed atom itself
+        t = ast.unparse(loop)
+        after = ast.unparse(fn)
+        inst = f"_revert_state side {s_}: removed atom -> frontier iff covered neighbour else external"
+        if f"if {nb} in {covered}" in t and f"frontier{s_}.add(last_atom{s_})" in t \
+                and f"external{s_}.add(last_atom{s_})" in after and \
+                "if not has_covered_neighbor" in after:
+            res.ok("R-REVERT-SHAPE", inst, fi.loc(loop))
+        else:
+            res.bad("R-REVERT-SHAPE", f"_revert_state side {s_}: removed atom",
+                    fi.loc(loop), f"{inst}: pattern not found", instance=inst)
+    if sides != 2:
+        res.error(f"R-REVERT-SHAPE: {sides} neighbour loops recognised in "
+                  "_revert_state (expected one per graph)")
+
+
+def check_stereo_index(prog: Program, res: Result) -> None:
+    res.rule("R-STEREO-INDEX", "_sanity_check_and_init indexes EVERY "
+             "descriptor (and every non-None stereo change) of both graphs "
+             "under each of its atoms: the append is not conditional on the "
+             "descriptor's parity or class (a parity-0 PlanarBond / "
+             "SquarePlanar or an unspecified descriptor that is left out is "
+             "never compared by the search)")
+    fi = prog.fn(f"{MOD}:_sanity_check_and_init")
+    n = 0
+    for call in ast.walk(fi.node):
+        if not (isinstance(call, ast.Call) and isinstance(
+                call.func, ast.Attribute) and call.func.attr == "append"):
+            continue
+        recv = norm(call.func.value)
+        m = re.match(r"g([12])_stereo(_changes)?\[", recv)
+        if not m:
+            continue
+        n += 1
+        side = m.group(1)
+        conds = []
+        src = None
+        for a in ancestors(call):
+            if isinstance(a, ast.If):
+                conds.append(norm(a.test))
+            if isinstance(a, ast.For):
+                it = norm(a.iter)
+                if it.startswith(f"g{side}.") or it.startswith(
+                        f"g{3 - int(side)}."):
+                    src = it
+                # `continue` filters earlier in the loop body
+                for st in a.body:
+                    if isinstance(st, ast.If) and any(isinstance(
+                            b, (ast.Continue, ast.Break)) for b in st.body):
+                        conds.append("skip if " + norm(st.test))
+            if isinstance(a, ast.FunctionDef):
+                break
+        conds = [c for c in conds if c not in ("stereo", "stereo_change",
+                                               "TYPE_CHECKING")]
+        badc = [c for c in conds if not re.fullmatch(
+            r"\w+ is not None", c)]
+        inst = f"_sanity_check_and_init: {norm(call, 70)}"
+        if src is None or not src.startswith(f"g{side}."):
+            res.bad("R-STEREO-INDEX", inst + " source", fi.loc(call),
+                    f"{inst}: index of graph {side} is filled from `{src}`",
+                    instance=inst)
+        elif badc:
+            res.bad("R-STEREO-INDEX", f"{inst} under {badc}", fi.loc(call),
+                    f"{inst}: descriptors are indexed only under {badc}; the "
+                    "others are invisible to the stereo feasibility check "
+                    "(stereoisomers differing only there compare equal)",
+                    instance=inst)
+        else:
+            res.ok("R-STEREO-INDEX", inst, fi.loc(call))
+    res.need("R-STEREO-INDEX", n, 6, "index appends")
